@@ -242,6 +242,25 @@ def ep_disable(r, s):
             s.TP(pick_gap(r, s.period()))
 
 
+def ep_mixed(r, s):
+    """devices with different values, then the setter for all devices with "keep": every device keeps its own"""
+    if s.ndev < 2:
+        return ep_change(r, s)
+    i = r.randrange(s.ndev)
+    s.H(r.choice([1000, 2500, 10000, 65536, 655320, r.randint(1000, 20000)]), r.choice([0, 10, 999, 5000, r.randint(0, 70000)]), i)
+    if r.random() < 0.5:
+        s.TP(pick_gap(r, s.period(i)))
+    x = r.random()
+    if x < 0.4:
+        s.H(KEEP, pick_offset(r))
+    elif x < 0.8:
+        s.H(pick_interval(r) or RESTORE, KEEP)
+    else:
+        s.H(KEEP, KEEP)
+    for _ in range(r.randint(2, 4)):
+        s.TP(pick_gap(r, s.period(r.choice([i, None]))))
+
+
 def scenario(r, ndev=None, mode=None, cold=None, t0=None, n_eps=None, huge=False):
     ndev = r.choice([1, 1, 2, 2, 3, 4, 5, 6, 7, 8, 9]) if ndev is None else ndev
     mode = r.choice([1, 1, 1, 1, 2, 2, 2, 0, 3, 4]) if mode is None else mode
@@ -258,8 +277,10 @@ def scenario(r, ndev=None, mode=None, cold=None, t0=None, n_eps=None, huge=False
         if len(s.ops) > 90:
             break
         x = r.random()
-        if x < 0.34:
+        if x < 0.27:
             ep_change(r, s)
+        elif x < 0.34:
+            ep_mixed(r, s)
         elif x < 0.52:
             ep_polls(r, s)
         elif x < 0.70:
@@ -303,9 +324,9 @@ def gen(seed, tier):
         for t0 in ORIGINS:
             for cold in (False, True):
                 cases.append(scenario(r, mode=r.choice([1, 2]), cold=cold, t0=t0))
-        for _ in range(150):
+        for _ in range(420):
             cases.append(scenario(r))
-        for _ in range(12):
+        for _ in range(30):
             cases.append(scenario(r, ndev=r.choice([1, 2, 3]), mode=r.choice([1, 2]), huge=True))
         # sequence wrap
         cases.append(wrap_case(r, 1, r.choice([5000, 70000]), 300))
@@ -531,7 +552,7 @@ def check(run, replay=None):
     run.cov['rule'] = ('per case one node with the heartbeat left on (hb=1): 1..9 devices x modes 0..4 (each combination at least once), cold starts polled through Open() and starts from an opened node, '
                        'clock origins 1000, 5000, 70000, around 2^31, 2^32-1296 .. 2^32+799, 10^12; operations: clock steps and polls (gaps 0, 1, period-1, period, period+1, fractions and multiples of the '
                        'period, 1 ms walks across grid points, 10^5..10^8 ms, a few up to 4.2*10^9 ms, always < 2^32 between polls), SetHeartbeatIntervalAndOffset for all devices / one device / '
-                       'out-of-range index with intervals 1..4294967293 incl. 999/1000/1001, 65535/65536, 655320/655321, the special values 0xffffffff, 0xfffffffe, 0 and the complete no-op, '
+                       'out-of-range index (incl. no-change for all devices after the devices were given different values) with intervals 1..4294967293 incl. 999/1000/1001, 65535/65536, 655320/655321, the special values 0xffffffff, 0xfffffffe, 0 and the complete no-op, '
                        'offsets 0..2^32-1 incl. keep, StartAddressClaim restarts while a heartbeat is due, disable/re-enable, the setter before Open(); 3 runs per round with a 1 s interval and '
                        '262..300 polls so that the sequence passes 252 -> 0.  Model and C++ (both scheduler builds) are compared on every frame and the final state incl. next time/period/offset/sequence; the '
                        'oracle is an abstract per-device scheduler (grid = open time + offset + n x period, fire at the first poll strictly after the grid point) that also checks priority, '
